@@ -49,7 +49,8 @@ Definition got_value (r : rarg) : bool :=
   end.
 
 (** [self.kind(value)] for the three scalar kinds.  [int()] is [parse_int]
-    (form [+-]?[0-9]+; anything else is a ValueError -- F-C07a). *)
+    (form [+-]?[0-9]+; anything else is a ValueError, which the parse machine
+    turns into a ParseError since repair 401bc73 -- see [checked] in ParserModel.v). *)
 Definition cast_kind (k : akind) (v : inval) : result aval :=
   match k, v with
   | KStr, IStr s => Ok (AStr s)
